@@ -44,7 +44,9 @@ CHECKS.update({
              "checks the defining relations (backward Euler, Crank-Nicolson, BDF2), conservation, no-growth and FD-Jacobian "
              "exactness for every small state, with a scalar step and with per-cell steps (D = diag(dt)); the real classes are bound through "
              "relation residuals on affine operators (direct steps, per-cell dt arrays, and along solve() trajectories), exact "
-             "rational amplification factors on dyadic z*dt, norm growth and an entrywise Jacobian comparison.",
+             "rational amplification factors on dyadic z*dt, norm growth and an entrywise Jacobian comparison. Apa_Implicit.tla lifts the "
+             "no-growth clauses of the backward-Euler and Crank-Nicolson factors from the dyadic grid to every rational z with Re z <= 0 "
+             "(Apalache, symbolic).",
         ref="DESIGN.md section 6 C06"),
 })
 
@@ -55,7 +57,8 @@ CHECKS.update({
         text="Limiters.tla transcribes the limiters in exact rationals and states the second-order TVD region clauses; TLC "
              "enumerates the whole grid (every sign combination, zeros, equal arguments); the real functions are evaluated on the "
              "grid scaled over 1e-150..1e150, random pairs and arrays, and TLC judges zero/sign/bounds/symmetry/oddness/"
-             "homogeneity tokens.",
+             "homogeneity tokens. Apa_Limiters.tla lifts the clauses from the grid to every pair of arguments (Apalache, symbolic, smooth "
+             "limiters cross-multiplied); arrays include 2-D, broadcast and strided arguments.",
         ref="DESIGN.md section 6 C12"),
     "C20": dict(
         technique="exhaustive TLC check of mesh partition / 2D connectivity axioms (Mesh.tla) + TLC-judged integer boundary "
@@ -82,7 +85,8 @@ CHECKS.update({
         text="Fluxes.tla gives physical and numerical fluxes in exact rationals on exact-point families (rational sound speeds, "
              "square density ratios); TLC checks consistency, mirror symmetry and upwinding on all grid pairs; the real fluxes are "
              "evaluated on the same families (TLC computes the physical flux and the regime exactly) and on random floats over six "
-             "decades (ulps tokens), plus locality, power-of-two homogeneity and 2D isotropy.",
+             "decades (ulps tokens), plus locality, power-of-two homogeneity and 2D isotropy. Apa_Fluxes.tla proves the three clauses for "
+             "the two-wave HLL, Rusanov, centered and scalar upwind forms with free fluxes, quantities and wave speeds (Apalache).",
         ref="DESIGN.md section 6 C02, section 4.4"),
     "C11": dict(
         technique="TLA+ model checking of reconstructions on all lattice meshes (TLC, exact rationals) + TLC-judged face states "
@@ -140,7 +144,9 @@ CHECKS.update({
         text="Scalar.tla advances convection and Burgers with the real reconstruction/flux/integrator algebra in exact rationals; "
              "TLC checks maximum principle, TVD and mean conservation on every data set of the lattice; the real solve is run on the same "
              "integer data (exact floats: TLC evaluates max/min/TV on the observed fields and checks each transition is a step of the "
-             "specification) and on random/step/sawtooth data up to N=200.",
+             "specification) and on random/step/sawtooth data up to N=200. Apa_Scalar.tla proves the local maximum principle of one "
+             "Euler step of convection for every data set, every Courant number <= 1/2 and any limiter value in the region of C12 "
+             "(Apalache, symbolic).",
         ref="DESIGN.md section 6 C09"),
     "C10": dict(
         technique="TLA+ model checking of the one-step positivity induction over ALL triples of an exact-point state grid (TLC) + "
@@ -214,7 +220,11 @@ def main():
                   "source_commits": [], "add_only": True},
         "engines": [{"name": "tlc", "path": "/usr/local/bin/tlc", "serves_properties": sorted(CHECKS),
                      "kind_free_text": "TLC 1.8 explicit-state model checker on the TLA+ modules under /verif/spec; Python harness "
-                                       "under /verif/harness binds them to the real code"}],
+                                       "under /verif/harness binds them to the real code"},
+                    {"name": "apalache", "path": "/usr/local/bin/apalache-mc", "serves_properties": ["C02", "C06", "C09", "C12"],
+                     "kind_free_text": "Apalache 0.58 symbolic model checker (Z3) on /verif/spec/Apa_*.tla: the algebraic clauses for "
+                                       "every argument (Init => Inv over unconstrained integers); an addition to the TLC instances "
+                                       "of the same clauses, inconclusive runs are recorded and tolerated"}],
         "checks": checks,
         "not_applicable": na,
         "notes": "Model-based verification with an explicit TLA+ specification (see DESIGN.md). Exit codes: 0 held, 1 VIOLATION, "
